@@ -308,3 +308,6 @@ Proof.
   - intros z Hz. rewrite (H3 z Hz). apply Z2Nat.id. exact Htake.
   - rewrite H4, Nat2Z.inj_mul, Z2Nat.id by exact Htake. reflexivity.
 Qed.
+
+Lemma shard_search_pred_tie h pos : shard_search_pred h pos = (pos <=? h)%Z.
+Proof. unfold shard_search_pred. apply Z.geb_leb. Qed.
